@@ -47,7 +47,9 @@ Inductive ev :=
 | ELegacyHit (cnt : Z) (hr : option (Z * Z))     (* counter_<n>_hit(count[, hits, remaining]) *)
 | EHit (a : Z) (hr : option (Z * Z))             (* logicblock_<n>_hit(count.. | step) *)
 | EComplete                                      (* logicblock_<n>_complete *)
-| ETimeout.                                      (* <n>_timeout *)
+| ETimeout                                       (* <n>_timeout *)
+| EUpdatedAny (en : bool).   (* never produced by the model: an observed update event whose value argument is
+                                not compared (accrual, two steps advanced by one shared event: see NOTES.md) *)
 
 (* ---- setters ---------------------------------------------------------------------------- *)
 Definition set_enabled b s := mkSt b (completed s) (value s) (steps s) (ignore s) (tmo s) (win s).
@@ -243,16 +245,27 @@ Definition grid : Z := 125.
 Definition fuel_for (now t : Z) : nat := (2 * Z.to_nat ((t - now) / grid) + 4)%nat.
 
 (* groups: (instant, operations applied at that instant in this order); one snapshot per group *)
-Fixpoint trun (c : cfg) (now : Z) (s : st) (groups : list (Z * list op)) : list obs :=
+Fixpoint trun_aux (c : cfg) (now : Z) (s : st) (groups : list (Z * list op)) : st * list obs :=
   match groups with
-  | [] => []
+  | [] => (s, [])
   | (t, ops) :: g' =>
       let '(s1, e1) := advance (fuel_for now t) c t s in
       let '(s2, e2) := apply_ops c t s1 ops in
-      map (fun te => OEv (fst te) (snd te)) e1 ++ map (OEv t) e2 ++ snap t s2 :: trun c t s2 g'
+      let '(s3, o3) := trun_aux c t s2 g' in
+      (s3, map (fun te => OEv (fst te) (snd te)) e1 ++ map (OEv t) e2 ++ snap t s2 :: o3)
   end.
 
+Definition trun c now s groups : list obs := snd (trun_aux c now s groups).
+
 Definition run (i : cfg * list (Z * list op)) : list obs := trun (fst i) 0 (init (fst i)) (snd i).
+
+(* the events of an observation list, without instants and snapshots *)
+Fixpoint events_of (l : list obs) : list ev :=
+  match l with
+  | [] => []
+  | OEv _ e :: r => e :: events_of r
+  | OSnap _ _ _ _ _ _ _ _ :: r => events_of r
+  end.
 
 (* ---- decidable equality of observations ------------------------------------------------------- *)
 Definition zz_eqb (a b : Z * Z) : bool := (fst a =? fst b) && (snd a =? snd b).
@@ -261,6 +274,7 @@ Definition bl_eqb : list bool -> list bool -> bool := list_eqb Bool.eqb.
 Definition ev_eqb (a b : ev) : bool :=
   match a, b with
   | EUpdated v l e, EUpdated v' l' e' => (v =? v') && bl_eqb l l' && Bool.eqb e e'
+  | EUpdated _ _ e, EUpdatedAny e' => Bool.eqb e e'
   | ELegacyHit x h, ELegacyHit x' h' => (x =? x') && option_eqb zz_eqb h h'
   | EHit x h, EHit x' h' => (x =? x') && option_eqb zz_eqb h h'
   | EComplete, EComplete => true
@@ -349,4 +363,6 @@ Fixpoint n_accepted (c : cfg) (s : st) (h : list (Z * op)) : nat :=
 Definition mark (ks : list nat) (l : list bool) : list bool := fold_left (fun l k => set_nth k l) ks l.
 Definition seq_adv (v : Z) (ks : list nat) : Z :=
   fold_left (fun v k => if (Z.of_nat k =? v) then v + 1 else v) ks v.
-Definition hits_at (t : Z) (ks : list nat) : list (Z * op) := map (fun k => (t, Hit k)) ks.
+Definition hits_of (tks : list (Z * nat)) : list (Z * op) := map (fun tk => (fst tk, Hit (snd tk))) tks.
+Definition is_reset_op (o : op) : bool :=
+  match o with Reset | Restart | FireTimeout => true | _ => false end.
